@@ -9,6 +9,7 @@
 //!         | 30 s limit                         configure_deleverage_withdrawal_limit (s: 0 admin, 1 risk admin)
 //!         | 31 s a nw (b amt all)*nw nr (b amt all)*nr   one transaction by s (0 risk admin, 1 the account's authority)
 //!         | 32 b flags                         fixture: set bank.flags (e.g. TOKENLESS_REPAYMENTS_ALLOWED)
+//!         | 33 s a b                           lending_account_purge_delev_balance by s (0 risk admin, 1 the account's authority)
 //! out : per op `<res> # <bank dumps> # <account dumps> # R <risk admin token balances> # G <limit> <withdrawn_today> <last_reset> # D <group fields changed>`
 //!       res of op 31 when it succeeds: `OK H am lm am' lm'` (maintenance assets / liabilities snapshot
 //!       in the liquidation record by start_deleverage, and those cached by end_deleverage)
@@ -313,6 +314,13 @@ pub fn run(line: &str) -> String {
                     );
                 }
                 r
+            }
+            33 => {
+                let who = t.u8();
+                let a = t.usize();
+                let b = t.usize();
+                let signer = if who == 0 { h.risk } else { h.auths[a] };
+                h.w.exec(ixs::purge_deleverage_balance(group, h.accts[a], signer, h.banks[b]), &[signer])
             }
             32 => {
                 let b = t.usize();
